@@ -297,6 +297,22 @@ def r5(ctx):
         err = [r for r in rows if P.agg(variant='Err')(r[1])]
         good = len(err) == 1 and P.exactly(err[0][2], [P.is_(P.call(NB + 'get_height', P.anything, PREV), 'None'), P.is_(P.call(GUB + 'block_depth', P.param('self'), PREV), 'Err')])
         ctx.check(good, 'R5', 'announced-needs-parent', f, 'a header is refused exactly when its parent is neither announced nor in the tree', 'refusal rows: %s' % describe_table(err))
+    f = ctx.fn('R5', GUB + 'block_depth')
+    if f:
+        # the parent of an announced header may sit on any branch of the tree (C14's quantifier: announced
+        # headers on forks): its depth comes from a search of the whole tree
+        FIND = P.call('ic_btc_canister::blocktree::BlockTree::find_mut', P.field('tree', P.param('self')), P.param('block_hash'))
+        rows = table(prog, f)
+        oks = [r for r in rows if P.agg(variant='Ok')(r[1])]
+        errs = [r for r in rows if not P.agg(variant='Ok')(r[1])]
+        good = len(oks) == 1 and P.has(FIND)(oks[0][1]) and isinstance(dict(oks[0][1][4]).get('0'), tuple) and dict(oks[0][1][4])['0'][0] == 'field' and dict(oks[0][1][4])['0'][2] in ('1', 1) \
+            and all(P.has(FIND)(c[1] if c[0] == 'is' else c) for r in rows for c in r[2]) and len(errs) == 1
+        names = {(c.gshort or c.short or '?').rsplit('::', 1)[-1] for c in f.calls() if not c.cleanup}
+        ctx.check(good, 'R5', 'announced-parent-anywhere-in-tree', f,
+                  'block_depth = depth of the block found by searching the whole tree (BlockTree::find_mut), an error exactly when it is nowhere in the tree',
+                  'block_depth does not look the parent up in the whole tree: %s (calls: %s)' % (describe_table(rows), sorted(names)))
+        from rules import atoms
+        atoms.tree_search(ctx, 'R5')
     f = ctx.fn('R5', NB + 'insert')
     if f:
         e = ex(prog, f)
